@@ -92,6 +92,8 @@ pub struct World {
     pub viol: Vec<Violation>,
     pub kept_afds: Vec<AsyncFd>,
     pub kept_rbufs: Vec<ReadBuf>,
+    /// (content hash, length, address) of each kept pool buffer when it was handed over.
+    pub kept_sums: Vec<(u64, usize, usize)>,
     pub next_slot: u64,
     /// user_data values that legitimately received a cancel request.
     pub cancels_seen: Vec<u64>,
@@ -164,6 +166,7 @@ impl World {
             viol: Vec::new(),
             kept_afds: Vec::new(),
             kept_rbufs: Vec::new(),
+            kept_sums: Vec::new(),
             next_slot: 1,
             cancels_seen: Vec::new(),
             cancel_targets_ok: Vec::new(),
@@ -269,6 +272,75 @@ impl World {
         });
         self.trace.push(format!("new#{id}:{kind:?}"));
         self.slots.len() - 1
+    }
+
+    /// Keep a pool buffer the caller owns now.
+    pub fn keep_rbuf(&mut self, b: ReadBuf) {
+        let _g = alloc::MonGuard::new();
+        let addr = b.as_slice().as_ptr().addr();
+        self.kept_sums.push((fnv(0, b.as_slice()), b.len(), addr));
+        self.kept_rbufs.push(b);
+    }
+
+    pub fn drop_rbuf(&mut self, n: usize) {
+        let b = self.kept_rbufs.swap_remove(n);
+        self.kept_sums.swap_remove(n);
+        alloc::a10(|| drop(b));
+    }
+
+    /// C08: bytes held in a ReadBuf never change, no two ReadBufs share a buffer.
+    pub fn check_rbufs(&mut self) {
+        let mut found = Vec::new();
+        for (i, b) in self.kept_rbufs.iter().enumerate() {
+            let (h, len, addr) = self.kept_sums[i];
+            if b.len() != len || fnv(0, b.as_slice()) != h {
+                found.push(("pool-buffer-overwritten-while-owned".to_string(), format!("a ReadBuf of {len} bytes at {addr:#x} changed while the caller owned it")));
+            }
+            if len > 0 {
+                for (j, o) in self.kept_sums.iter().enumerate() {
+                    if j > i && o.1 > 0 && o.2 == addr {
+                        found.push(("pool-buffer-owned-twice".to_string(), format!("two live ReadBufs point at {addr:#x}")));
+                    }
+                }
+            }
+        }
+        for (sig, d) in found {
+            if !self.viol.iter().any(|v| v.sig == sig) {
+                self.violation("C08", sig, d);
+            }
+        }
+    }
+
+    /// C08 conservation: with no ReadBuf alive and nothing in flight the kernel
+    /// must own every buffer of every pool again.
+    pub fn check_pool_conservation(&mut self) {
+        let mut found = Vec::new();
+        {
+            let mut k = simk::k();
+            let fd = self.ring_fd;
+            let groups: Vec<u16> = k.rings.get(&fd).map(|r| r.pbufs.keys().copied().collect()).unwrap_or_default();
+            for g in groups {
+                effects::pbuf_audit(&mut k, fd, g);
+                let lost: Vec<(u16, u64)> = k.rings[&fd].pbufs[&g].handed_out.iter().map(|(b, r)| (*b, *r)).collect();
+                for (bid, req) in lost {
+                    let (op, owner, multi) = match k.reqs.get(&req) {
+                        Some(r) => (op_name(r.sqe.opcode()), r.owner, r.multishot),
+                        None => ("?", 0, false),
+                    };
+                    let slot = self.slots.iter().find(|s| s.id == owner);
+                    let sig = match slot {
+                        Some(s) if s.dropped_in_flight && multi => format!("pool-buffer-lost:dropped-multishot:{op}"),
+                        Some(s) if s.dropped_in_flight => format!("pool-buffer-lost:abandoned-op:{op}"),
+                        Some(s) if s.state == SlotState::Dropped => format!("pool-buffer-lost:uncollected-result:{op}"),
+                        _ => format!("pool-buffer-lost:{op}"),
+                    };
+                    found.push((sig, format!("buffer {bid} of group {g}, selected for request {req} ({op}, op #{owner}), never returned to the kernel although no ReadBuf is alive and nothing is in flight")));
+                }
+            }
+        }
+        for (sig, d) in found {
+            self.violation("C08", sig, d);
+        }
     }
 
     /// Add an operation that is not in the generic table.
@@ -663,6 +735,7 @@ impl World {
             }
         }
         let bufs = std::mem::take(&mut self.kept_rbufs);
+        self.kept_sums.clear();
         alloc::a10(|| drop(bufs));
         let afds = std::mem::take(&mut self.kept_afds);
         alloc::a10(|| drop(afds));
